@@ -16,7 +16,12 @@ import (
 // ---- PRNG: splitmix64; every random choice of a run derives from one state ----
 type Rng struct{ s uint64 }
 
-func NewRng(seed uint64) *Rng { return &Rng{s: seed*0x9E3779B97F4A7C15 + 0x1234567} }
+// NewRng scrambles the seed before using it as the splitmix64 state: with the state seed*gamma + c the
+// stream of seed n+1 was the stream of seed n shifted by one draw, so "three seeds" explored one stream.
+func NewRng(seed uint64) *Rng {
+	r := &Rng{s: seed*0x9E3779B97F4A7C15 + 0x1234567}
+	return &Rng{s: r.U64() ^ 0xD1B54A32D192ED03*(seed+1)}
+}
 func (r *Rng) U64() uint64 {
 	r.s += 0x9E3779B97F4A7C15
 	z := r.s
